@@ -3,6 +3,7 @@ import Props.C05_flat
 import Props.C05_hier
 import Props.C05_xml
 import Props.C05_xmlattrs
+import Props.C05_xmlvalues
 #print axioms SpyneModel.Props.C05flat.leafLaws03
 #print axioms SpyneModel.Props.C05flat.facts03_soft
 #print axioms SpyneModel.Props.C05flat.flat_soft_accepted_conforms
@@ -19,6 +20,8 @@ import Props.C05_xmlattrs
 #print axioms SpyneModel.Props.C05hier.hier_verdict_protocol_independent
 #print axioms SpyneModel.Props.C05hier.facts02_body
 #print axioms SpyneModel.Props.C05hier.facts02_good
+#print axioms SpyneModel.Props.C05hier.facts02_nofreq
+#print axioms SpyneModel.Props.C05hier.facts02_values_none
 #print axioms SpyneModel.Props.C05hier.facts02_bint
 #print axioms SpyneModel.Props.C05hier.hier_soft_accepts_only_conformant
 #print axioms SpyneModel.Props.C05hier.hier_soft_request_only_conformant
@@ -38,3 +41,5 @@ import Props.C05_xmlattrs
 #print axioms SpyneModel.Props.C05xmlattrs.xml_soft_accepts_conformant_attrs
 #print axioms SpyneModel.Props.C05xmlattrs.xml_soft_accepted_conforms_attrs
 #print axioms SpyneModel.Props.C05xmlattrs.xml_soft_attribute_value_exact
+#print axioms SpyneModel.Props.C05xmlvalues.empty_string_not_in_values_is_refused
+#print axioms SpyneModel.Props.C05xmlvalues.listed_value_passes
